@@ -1147,7 +1147,8 @@ emittype(struct type *t)
 	static unsigned id;
 	struct member *m, *other;
 	struct type *sub;
-	unsigned long long off;
+	unsigned long long off, end;
+	int pass, align;
 
 	if (t->value || t->kind != TYPESTRUCT && t->kind != TYPEUNION)
 		return;
@@ -1166,35 +1167,64 @@ emittype(struct type *t)
 		printf(" = align %d { %llu }\n", t->align, t->size);
 		return;
 	}
-	fputs(" = { ", stdout);
-	for (m = t->u.structunion.members, off = 0; m;) {
-		if (t->kind == TYPESTRUCT) {
-			/* look for a subsequent member with a larger storage unit */
-			for (other = m->next; other; other = other->next) {
-				if (other->offset >= ALIGNUP(m->offset + 1, 8))
-					break;
-				if (other->offset <= m->offset)
-					m = other;
-			}
-			off = m->offset + m->type->size;
-		} else {
-			fputs("{ ", stdout);
+	/*
+	The backend computes offsets, size and alignment from the fields:
+	padding it could not infer is spelled out as bytes, and the
+	alignment is given if the fields (found by pass 0) imply a weaker one.
+	*/
+	for (pass = 0, align = 1; pass < 2; ++pass) {
+		if (pass == 1) {
+			if (t->align > align)
+				printf(" = align %d { ", t->align);
+			else
+				fputs(" = { ", stdout);
 		}
-		for (sub = m->type; sub->kind == TYPEARRAY; sub = sub->base)
-			;
-		emitclass(qbetype(sub).data, sub->value);
-		if (m->type->size > sub->size)
-			printf(" %llu", m->type->size / sub->size);
-		if (t->kind == TYPESTRUCT) {
-			fputs(", ", stdout);
-			/* skip subsequent members contained within the same storage unit */
-			do m = m->next;
-			while (m && m->offset < off);
-		} else {
-			fputs(" } ", stdout);
-			m = m->next;
+		for (m = t->u.structunion.members, off = 0, end = 0; m;) {
+			if (t->kind == TYPESTRUCT) {
+				/* look for a subsequent member with a larger storage unit */
+				for (other = m->next; other; other = other->next) {
+					if (other->offset >= ALIGNUP(m->offset + 1, 8))
+						break;
+					if (other->offset <= m->offset)
+						m = other;
+				}
+				off = m->offset + m->type->size;
+			} else if (pass == 1) {
+				fputs("{ ", stdout);
+			}
+			for (sub = m->type; sub->kind == TYPEARRAY; sub = sub->base)
+				;
+			if (t->kind == TYPESTRUCT && m->offset < end) {
+				/* bit-field whose storage unit starts inside the previous field: the rest of the unit */
+				if (pass == 1)
+					printf("b %llu", off - end);
+			} else {
+				if (t->kind == TYPESTRUCT && m->offset > ALIGNUP(end, sub->align) && pass == 1)
+					printf("b %llu, ", m->offset - end);
+				if (align < sub->align)
+					align = sub->align;
+				if (pass == 1) {
+					emitclass(qbetype(sub).data, sub->value);
+					if (m->type->size > sub->size)
+						printf(" %llu", m->type->size / sub->size);
+				}
+			}
+			if (t->kind == TYPESTRUCT) {
+				end = off;
+				if (pass == 1)
+					fputs(", ", stdout);
+				/* skip subsequent members contained within the same storage unit */
+				do m = m->next;
+				while (m && m->offset + m->type->size <= off);
+			} else {
+				if (pass == 1)
+					fputs(" } ", stdout);
+				m = m->next;
+			}
 		}
 	}
+	if (t->kind == TYPESTRUCT && t->size > ALIGNUP(end, t->align))
+		printf("b %llu, ", t->size - end);
 	puts("}");
 }
 
